@@ -264,6 +264,34 @@ struct AlignedFreeDeleter<void> {
   }
 };
 
+// Minimal standard allocator on top of alignedMalloc, for standard containers of over-aligned
+// types: before C++17, std::allocator does not honour alignments beyond alignof(max_align_t).
+template <typename T>
+struct AlignedAllocator {
+  using value_type = T;
+  AlignedAllocator() = default;
+  template <typename U>
+  AlignedAllocator(const AlignedAllocator<U>&) {}
+  template <typename U>
+  struct rebind {
+    using other = AlignedAllocator<U>;
+  };
+  T* allocate(size_t n) {
+    return static_cast<T*>(detail::alignedMalloc(sizeof(T) * n, alignof(T)));
+  }
+  void deallocate(T* ptr, size_t) {
+    detail::alignedFree(ptr);
+  }
+  template <typename U>
+  bool operator==(const AlignedAllocator<U>&) const {
+    return true;
+  }
+  template <typename U>
+  bool operator!=(const AlignedAllocator<U>&) const {
+    return false;
+  }
+};
+
 // Array deleter for aligned allocations. Destructor loop is elided by
 // the compiler for trivially destructible types.
 template <typename T>
